@@ -459,6 +459,14 @@ impl Parser {
     //@  ensures @an_emitted_byte_is_attributed_to_the_line_of_the_token_just_consumed final(self).cur().chunk.lines@.len() == old(self).cur().chunk.lines@.len() + 1 && final(self).cur().chunk.lines@.subrange(0, old(self).cur().chunk.lines@.len() as int) == old(self).cur().chunk.lines@ && (old(self).previous.line <= 0x7fff_ffff ==> final(self).cur().chunk.lines@.last() as int == old(self).previous.line as int)
     //@end
 
+    // the one instruction attributed to another token than the one just consumed: Inherit, to the superclass name
+    //@fn file=yarel/src/compiler.rs path=Parser::emit_byte_for_token props=C04,C17
+    //@  requires old(self).pwf()
+    //@  ensures final(self).pwf(), old(self).same_but_code(final(self))
+    //@  ensures final(self).code() == old(self).code().push(byte)
+    //@  ensures @a_byte_emitted_for_a_token_is_attributed_to_the_line_of_that_token final(self).cur().chunk.lines@.len() == old(self).cur().chunk.lines@.len() + 1 && final(self).cur().chunk.lines@.subrange(0, old(self).cur().chunk.lines@.len() as int) == old(self).cur().chunk.lines@ && (token.line <= 0x7fff_ffff ==> final(self).cur().chunk.lines@.last() as int == token.line as int)
+    //@end
+
     //@fn file=yarel/src/compiler.rs path=Parser::emit_bytes
     //@  requires old(self).pwf()
     //@  ensures final(self).pwf(), old(self).same_but_code(final(self))
